@@ -548,7 +548,7 @@ def c08(ctx):
     if ctx.quick:
         jobs = conc_jobs(ctx, 16, 100, native=0, variant=[0, 0, 1, 0, 2, 0, 4, 5], tag="c08") + \
             conc_jobs(ctx, 4, 25, native=1, variant=[0, 1], first=100000, tag="c08n") + \
-            enum_jobs(ctx, 0, 6, 1, 1, tag="c08") + enum_jobs(ctx, 6, 1, 2, 8, tag="c08")
+            enum_jobs(ctx, 0, 6, 1, 1, tag="c08") + enum_jobs(ctx, 6, 1, 2, 8, max2=24, tag="c08")
     else:
         jobs = conc_jobs(ctx, 64, 600, native=0, variant=[0, 0, 1, 0, 2, 3, 4, 5], tag="c08") + \
             conc_jobs(ctx, 16, 150, native=1, variant=[0, 1, 2], first=1000000, tag="c08n") + \
@@ -577,7 +577,7 @@ def c09(ctx):
         return do_replay(ctx)
     if ctx.quick:
         jobs = conc_jobs(ctx, 16, 100, native=0, variant=[2, 3, 4, 5, 6, 1, 0, 8], first=50000, tag="c09") + \
-            enum_jobs(ctx, 100, 6, 1, 1, tag="c09") + enum_jobs(ctx, 106, 1, 2, 8, tag="c09")
+            enum_jobs(ctx, 100, 6, 1, 1, tag="c09") + enum_jobs(ctx, 106, 1, 2, 8, max2=24, tag="c09")
     else:
         jobs = conc_jobs(ctx, 64, 800, native=0, variant=[2, 3, 4, 5, 6, 1, 0, 8], first=50000, tag="c09") + \
             enum_jobs(ctx, 100, 8, 2, 16, tag="c09")
